@@ -7,6 +7,7 @@ a = q*d + rem, 0 <= rem < d.  floordiv_by_fr_p_value is replaced by the weakest 
 value": the recombination identity holds for EVERY rounded quotient, which is why the unreduced-scalar branch is harmless.
 Closed facts used (CONST, from the dumped constants against the reference parameters): v1_2*lambda == 1, v2_1 + lambda == 0,
 lambda^2 + lambda + 1 == 0 (mod r), 1 + v1_2*v2_1 == r, |x| matches the reference parameter."""
+import re
 from poly import Poly
 from symx import Interp, Leaf, Obj, Arr, Cell, Ptr, POISON, SymxError
 from groupdom import GroupDomain, Lin, pmod, residual_check, R_ORDER, TWO256, P as PP, z3_query, _smt_term
@@ -109,11 +110,125 @@ def gen_powers(tu):
     yield "closed facts", guarded(consts)
 
 
+# ---------------------------------------------------------------------------
+# BV view of decompose_lambda: the word-level sign / magnitude handling.  The integer-level unit above proves that
+# (k - b1 - b2*v2_1) + (b1*v1_2 - b2)*lambda == k (mod r) for EVERY b2; this unit proves that the real body, word for word, outputs
+# exactly |k - (P + b1)| with its sign and |b1*v1_2 - b2| with its sign, where b1 = [2k >= r], b2 = whatever floordiv returned (ghost),
+# P = whatever BigInt<256>::multiply<128>(b2, v2_1) returned (ghost, with the range axiom P <= (2^128 - 1) * v2_1).
+def bv_lambda_unit():
+    import bvspec as S, bigint as BI
+    from units import BVUnit
+    V12 = 0xac45a4010001a40200000000ffffffff
+    V21 = 0xac45a4010001a4020000000100000000
+    q = "decompose_lambda"
+    prelude = "uv256 jpv_P; uv256 jpv_b2; int jpv_b1;\n#define JPV_V12 %s\n#define JPV_PMAX %s\n" % (S.lit(V12, 2, "uv256"), S.lit(((1 << 128) - 1) * V21, 4, "uv256"))
+    K, C0, C1 = "OLD256(k)", "VAL256(c0)", "VAL256(c1)"
+    tgt = (S.req(S.fresh("c0"), S.fresh("c1"), S.fresh("c0_neg"), S.fresh("c1_neg"), "__CPROVER_pointer_equals(k, c0) || __CPROVER_pointer_equals(k, c1) || " + S.fresh("k"))
+           + S.assigns("*c0", "*c1", "*c0_neg", "*c1_neg", "jpv_P", "jpv_b2", "jpv_b1")
+           + S.ens("jpv_b1 == ((((uv256)2 * %s) >= SPEC_R) ? 1 : 0)" % K,
+                   "*c0_neg ? (%s < jpv_P + jpv_b1 && %s == jpv_P + jpv_b1 - %s) : (%s >= jpv_P + jpv_b1 && %s == %s - (jpv_P + jpv_b1))" % (K, C0, K, K, C0, K),
+                   "jpv_b1 == 0 ? (*c1_neg && %s == jpv_b2) : (*c1_neg ? (JPV_V12 < jpv_b2 && %s == jpv_b2 - JPV_V12) : (JPV_V12 >= jpv_b2 && %s == JPV_V12 - jpv_b2))" % (C1, C1, C1),
+                   "jpv_b2 < ((uv256)1 << 128)"))
+    cs = {q: tgt,
+          "BigInt<256>::shift_left_in_word<1>": BI.c_shl1(256), "BigInt<256>::compare": BI.c_compare(256), "BigInt<256>::add": BI.c_add(256), "BigInt<256>::subtract": BI.c_sub(256),
+          "BigInt<256>::copy<128>": S.req(S.fresh("self"), S.fresh("a")) + S.assigns("__CPROVER_object_whole(self)") + S.ens("VAL256(self) == (uv256)VAL128(a)"),
+          "BigInt<384>::multiply<128>": S.assigns("__CPROVER_object_whole(self)"),
+          "BigInt<256>::multiply<128>": S.assigns("__CPROVER_object_whole(self)") + S.ens("VAL256(self) <= JPV_PMAX"),
+          "floordiv_by_fr_p_value<128>": S.assigns("__CPROVER_object_whole(result)")}
+    ghost = {q: [(r"^\s*BigInt_128 rounded_b2;", "before", "jpv_b1 = rounded_b1;"),
+                 (r"floordiv_by_fr_p_value_128\(", "after", "jpv_b2 = (uv256)VAL128(&rounded_b2);"),
+                 (r"BigInt_256_multiply_128\(&\(product\)", "after", "jpv_P = VAL256(&product);")]}
+    u = BVUnit(q, cs, P, replace=[k_ for k_ in cs if k_ != q], unwind=8, timeout=900, spec_prelude=prelude, ghost=ghost, extra=["--object-bits", "10"],
+               canary=("jpv_b2 - JPV_V12)", "jpv_b2 - JPV_V12 + 1)"),
+               label="decompose_lambda (words): c0 = |k - (P + b1)|, c1 = |b1*v1_2 - b2| with their signs, b1 = [2k >= r]; P, b2 ghost",
+               note="products and the rounded quotient are ghost values (range axiom P <= (2^128-1)*v2_1); the recombination identity over them is the integer-level unit")
+    return u
+
+
+# ---------------------------------------------------------------------------
+# BigInt::divide_std_dword<d>.  (A BV unit with CBMC's divider, and one with the axiomatised Euclidean pair, both ran out of time: the
+# solver has to derive q < 2^64 from q*d <= a < d*2^64.  The WORD back end tracks that bound arithmetically and decides it at once.)
+def gen_divide_word(tu):
+    """WORD back end: the real division loop with every digit an exact polynomial; q, r of `/` and `%` are the Euclidean pair of the
+    C definition (a == q*d + r, 0 <= r < d), bounds tracked so that the narrowing of the quotient digit is shown lossless"""
+    from worddom import WordDomain, wv
+    qs = [q for q, f in tu.by_qname.items() if f.body is not None and re.match(r"BigInt<\d+>::divide_std_dword<", q)]
+    if not qs:
+        import jast
+        raise jast.ExtractionError("no instance of BigInt::divide_std_dword")
+    for q in sorted(qs):
+        for alias in (False, True):
+            def run(path, q=q, alias=alias):
+                f = tu.func(q)
+                d = int(f.targs[0]) % (1 << 64)
+                dom = WordDomain(consts=U.SHARED.get("consts"))
+                I = Interp(tu, dom)
+                I.path = path
+                a = I.new_object(f.record.qname)
+                a.val = dom.input_words("a", dom.nwords(a.type))
+                A = dom.value(a)
+                this = a if alias else I.new_object(f.record.qname)
+                ret = I.call(f, this, [a], force_body=True)
+                ret = wv(I.rv(ret))
+                ws = dom.words(this)
+                ok = lambda w, c, m="": (w, "ok" if c else "fail", m, None)
+                D = dom.reduce_eq(A - dom.value(this) * d - ret.p)
+                return [ok("%s%s: VAL(a) == VAL(self) * d + rem (exact, all operands)" % (q, " [self=a]" if alias else ""), D.is_zero(), "residual %r" % D),
+                        ok("%s: rem < d" % q, dom.refine(ret).hi < d, "bound %d" % ret.hi),
+                        ok("%s: every quotient digit written, below 2^64" % q, all(w is not POISON and wv(w).hi < (1 << 64) for w in ws))]
+            yield q + (" [self=a]" if alias else ""), guarded(run)
+
+
+def _replay_divide(rec, unit, result, fresh, tu, wd, cx):
+    """native: the real BigInt<256>::divide_std_dword<|x|> on every 4-digit operand with digits in {0, 1, d-1, d, d+1, 2^64-1}, against Python divmod"""
+    import replay as R_, itertools
+    d = X_ABS
+    digs = [0, 1, d - 1, d, d + 1, (1 << 64) - 1]
+    vals = [sum(w << (64 * i) for i, w in enumerate(ws)) for ws in itertools.product(digs, repeat=4)]
+    lines = [R_.unity_source(), "#include <stdio.h>", "#include <string.h>", "using namespace embedded_pairing; using namespace embedded_pairing::core; using namespace embedded_pairing::bls12_381;",
+             "static const uint64_t DG[6] = {%s};" % ", ".join("%dULL" % x for x in digs),
+             "int main(){ unsigned k = 0; for (int i3 = 0; i3 < 6; i3++) for (int i2 = 0; i2 < 6; i2++) for (int i1 = 0; i1 < 6; i1++) for (int i0 = 0; i0 < 6; i0++, k++) {",
+             "  uint64_t w[4] = {DG[i3], DG[i2], DG[i1], DG[i0]}; BigInt<256> a, q; memcpy(&a, w, sizeof w); uint64_t r = q.divide_std_dword<%dULL>(a); memcpy(w, &q, sizeof w);" % d,
+             "  printf(\"r%u %llu %llu %llu %llu %llu\\n\", k, (unsigned long long)w[0], (unsigned long long)w[1], (unsigned long long)w[2], (unsigned long long)w[3], (unsigned long long)r); } return 0; }"]
+    native, err = R_.run_native("\n".join(lines), wd, "divide_native")
+    rec["native_driver_error"] = err
+    if native is None:
+        return False
+    for k, a in enumerate(vals):
+        out = native.get("r%d" % k)
+        if out is None:
+            continue
+        qv = sum(x << (64 * i) for i, x in enumerate(out[:4]))
+        if (qv, out[4]) != divmod(a, d):
+            rec["native_finding"] = "real BigInt<256>::divide_std_dword<|x|> on a = %d returns quotient %d, remainder %d; a divmod |x| = %r" % (a, qv, out[4], divmod(a, d))
+            rec["confirmed_on_real_code"] = True
+            return True
+    rec["confirmed_on_real_code"] = False
+    return False
+
+
+def word_unit(u):
+    u.back_end = "WORD"
+    u.replay_hook = _replay_divide
+    return u
+
+
+def closed_v(tu):
+    def consts(path):
+        dom = GroupDomain(consts=U.SHARED.get("consts"))
+        c = dom.consts
+        chk = lambda w, ok: (w, "ok" if ok else "fail", "", None)
+        return [chk("g1_v1_2, g1_v2_1 are the constants the word-level contract of decompose_lambda was written for", c.value("g1_v1_2") == 0xac45a4010001a40200000000ffffffff and c.value("g1_v2_1") == 0xac45a4010001a4020000000100000000)]
+    yield "closed facts", guarded(consts)
+
+
 def units():
     lower = ["BigInt::multiply = exact product when it fits; add / subtract / compare / shift_left_in_word<1> / copy exact (C02)", "BigInt::divide_std_dword<d>: a = q*d + rem, rem < d (C02)",
              "floordiv_by_fr_p_value: returns SOME 128-bit value (no accuracy assumed)"]
     return [ScenUnit("decompose_lambda: (+-c0) + (+-c1)*lambda == k (mod r) for every k and every rounded quotient", P, gen_lambda, targets=["decompose_lambda"], contracts_used=lower),
-            ScenUnit("PowersOfX::decompose: digits recombine to y (mod r), digits in range", P, gen_powers, targets=["PowersOfX::decompose", "div_exp_coeff"], contracts_used=lower)]
+            ScenUnit("PowersOfX::decompose: digits recombine to y (mod r), digits in range", P, gen_powers, targets=["PowersOfX::decompose", "div_exp_coeff"], contracts_used=lower),
+            word_unit(ScenUnit("BigInt::divide_std_dword<d> (every instance): VAL(a) == VAL(self)*d + rem, rem < d, word level", P + ["C02"], gen_divide_word, targets=[])),
+            bv_lambda_unit(), ScenUnit("decompose_lambda (words): constants match the contract", P, closed_v, targets=["decompose_lambda"])]
 
 
 # ---------------------------------------------------------------------------
